@@ -50,6 +50,10 @@ def obligations(ctx, tier):
                 reps.append(("r%d_12" % r, (lambda r=r: lambda W: {0: S_("12"), 1: PI("u32", r)})(),
                              expect(("ret_call", "from_buf_radix_internal::<N, true, true>"))))
             out += core.g_row(K, PROP, inh(A, "from_str_radix"), reps)
+            # the const panicking form: same radix guard, and an empty text panics
+            out += core.g_row(K, PROP, inh(A, "parse_str_radix"),
+                              [r_ for r_ in reps if r_[0].startswith(("r0_", "r1_", "r37_", "r100_", "r256_", "r4294967295_"))]
+                              + [("r%d_empty" % r, (lambda r=r: lambda W: {0: S_(""), 1: PI("u32", r)})(), expect(("panic", "*"))) for r in (2, 10, 16, 36)])
             # ---- digit-slice forms
             for m, be, sl in (("from_radix_be", "true", "from_be_slice"), ("from_radix_le", "false", "from_le_slice")):
                 reps = []
@@ -190,7 +194,7 @@ def sign_rows(K, A):
         return ("ok", v)
 
     for radix in (10, 16, 2, 36, 8):
-        reps_s, reps_b = [], []
+        reps_s, reps_b, reps_p = [], [], []
         for j in range(41):
             def env_s(W, j=j, radix=radix):
                 tx = texts(W, radix)
@@ -209,9 +213,16 @@ def sign_rows(K, A):
                 text = bytes(d.v for d in env[0][1]).decode()
                 r = reference(W, text, radix)
                 return ("some", W.wrap(A, r[1])) if r[0] == "ok" else ("none",)
+            def exp_p(W, env, radix=radix):
+                # parse_str_radix: the const, panicking form - the denoted value, or a panic for every refused text
+                text = bytes(d.v for d in env[0][1]).decode()
+                r = reference(W, text, radix)
+                return ("val", W.wrap(A, r[1])) if r[0] == "ok" else ("panic", "*")
             reps_s.append(("r%d_t%d" % (radix, j), env_s, exp_s))
             reps_b.append(("r%d_t%d" % (radix, j), env_b, exp_b))
+            reps_p.append(("r%d_t%d" % (radix, j), env_s, exp_p))
         out += core.g_row(K, PROP, inh(A, "from_str_radix"), reps_s, tag="sign")
+        out += core.g_row(K, PROP, inh(A, "parse_str_radix"), reps_p, tag="sign")
         ntf = tr(A, "num_traits::Num", [], "from_str_radix")
         if K.F.lookup(ntf) is not None:
             out += core.g_row(K, PROP, ntf, reps_s, tag="sign")      # the num-traits entry point accepts the same language
